@@ -39,9 +39,10 @@ Good == [ok |-> TRUE, clause |-> "", exp |-> 0]
 StepEv(acc, e, n, orig) ==
     LET st == acc.st  k == acc.k IN
     IF ~acc.v.ok THEN acc
-    \* the harness could not bring the run to an end (writers blocked, child process lost): what was observed
-    \* up to here has been judged; the run itself is reported, never silently dropped
-    ELSE IF e.op = "stuck" THEN [acc EXCEPT !.v = Bad("run.incomplete", k, st, "")]
+    \* the harness could not bring the run to an end (a writer blocked for ever, the child process lost):
+    \* what was observed up to here has been judged with the real clauses; the hang itself violates nothing
+    \* C12 states and is only counted (clauses named diag.* are diagnostics, not violations)
+    ELSE IF e.op = "stuck" THEN [acc EXCEPT !.v = Bad("diag.run.hang", k, st, "")]
     ELSE IF Len(e.ls.other) # 0 THEN [acc EXCEPT !.v = Bad("ls.other", k, st, e.w)]
     ELSE IF LsOf(e.ls) # Visible(st) THEN [acc EXCEPT !.v = Bad(IF e.op = "post" THEN "post.ls" ELSE "ls", k, st, e.w)]
     ELSE IF e.op = "post" THEN
